@@ -384,6 +384,55 @@ func gasLimitSource(c *Ctx, e *Env, v ssa.Value, site ssa.Instruction, depth int
 		}
 		return "all of GasProvided forwarded, GasRemaining left 0", true
 	}
+	// the remaining gas kept in a local until the output is built (`limit, remaining = remaining, 0`): the value is
+	// non-inflating by provenance, and on every path through this site what is finally stored as GasRemaining is 0
+	if why, ok := nonInflating(c.P, e, v, "", 0); ok {
+		fn := e.Fn
+		bad := ""
+		nstores := 0
+		for _, b := range fn.Blocks {
+			for _, in := range b.Instrs {
+				st, ok := in.(*ssa.Store)
+				if !ok {
+					continue
+				}
+				fa, ok := st.Addr.(*ssa.FieldAddr)
+				if !ok || !isFieldOf(fa, "VMOutput", "GasRemaining") {
+					continue
+				}
+				before := instrReaches(fn, site, st, nil)
+				after := instrReaches(fn, st, site, nil)
+				if !before && !after {
+					continue
+				}
+				nstores++
+				if k, isK := constInt(st.Val); isK && k == 0 {
+					continue
+				}
+				ph, isPhi := st.Val.(*ssa.Phi)
+				if !isPhi || !before {
+					bad = "the forwarded amount is also kept: GasRemaining = " + e.Term(st.Val) + " at " + c.P.InstrPos(st)
+					continue
+				}
+				for i, ed := range ph.Edges {
+					pb := ph.Block().Preds[i]
+					through := pb == site.Block() || reachableAvoiding(site.Block(), pb, nil)
+					if !through {
+						continue
+					}
+					if k, isK := constInt(ed); !isK || k != 0 {
+						bad = "on a path through the hand-over GasRemaining becomes " + e.Term(ed) + " at " + c.P.InstrPos(st)
+					}
+				}
+			}
+		}
+		if bad != "" {
+			return "forwarded gas is copied, not moved: " + bad, false
+		}
+		if nstores > 0 {
+			return "moved on a local: " + why + "; GasRemaining is 0 on every path through the hand-over", true
+		}
+	}
 	return "gas limit " + e.Term(v) + " is neither 0, a moved GasRemaining nor GasProvided", false
 }
 
